@@ -29,6 +29,7 @@ conclusion is an explicit pair of distinct byte strings with the same data hash.
 import XetProofs.CrashFS
 import XetProofs.CacheCodec
 import XetProps.C06
+import XetModel.Generated.Consts
 
 namespace Xet.CrashFS
 
@@ -456,3 +457,14 @@ example : (cachePutFx [1] ⟨2, 5, 3, 77⟩ [65] [[1], [2, 3]] [⟨3, 4, 1, 5⟩
 end Examples
 
 end Xet.CrashFS
+
+/-! ### The freshness assumption is tied to the source
+
+The write theorems above take the temp name as a parameter that does not exist yet in the directory (`SafeFileCreator`
+opens its temp path without truncation, so a longer leftover under the same name would leak its tail into the published
+file).  The constant extractor checks on every run that `SafeFileCreator::temp_file_path` still draws
+`Gen.tempNameRandomChars` random alphanumeric characters and that every `.…mdb_temp` name is a fresh v4 uuid; the bound
+below is what "does not exist yet" rests on. -/
+theorem Xet.CrashFS.C19_temp_name_entropy : 2 ^ 59 ≤ 62 ^ Xet.Gen.tempNameRandomChars ∧ 2 ≤ Xet.Gen.mdbTempUuidSites := by
+  decide
+
